@@ -28,7 +28,12 @@ fn game_from(sc: &Value) -> Option<Game> {
 /// a game whose final position is the search root; half of them carry history
 pub fn gen_root(rng: &mut Rng) -> Game {
     loop {
-        let g = if rng.chance(1, 4) {
+        let g = if rng.chance(1, 12) {
+            // at most four men, a mate in one on the board (or one move away after a short walk
+            // back and forth): where "drawn material" shortcuts are wrong
+            let p = minimal_mate_root(rng);
+            Game { start: p, moves: vec![], source: "minimal-material" }
+        } else if rng.chance(1, 4) {
             // pawns one step from promotion with pieces to capture on the last rank, after a
             // short tactical walk: capture-promotions inside quiescence
             let mut p = workload::template_promotion(rng);
@@ -440,6 +445,36 @@ pub const CROSS_CHECK_MATES: &[&str] = &[
     "r3n2k/4R1p1/6P1/8/Q1B5/5R2/8/4K3 w - - 0 1",
 ];
 
+/// a position of the minimal-material list (see endgames.rs): as listed (mate in one for the
+/// mover), colour-mirrored and/or file-flipped, sometimes one legal move earlier or later
+pub fn minimal_mate_root(rng: &mut Rng) -> Pos {
+    let all = crate::endgames::MINIMAL_MATES;
+    // half of the draws from the classes without queen and rook
+    let minor: Vec<&(&str, &str)> = all.iter().filter(|(s, _)| !s.contains('Q') && !s.contains('R')).collect();
+    let fen = if rng.chance(1, 2) && !minor.is_empty() { rng.pick(&minor).1 } else { rng.pick(all).1 };
+    let mut p = Pos::from_fen(fen).unwrap();
+    if rng.chance(1, 2) {
+        // flip files (no castling rights, no en-passant target in these positions)
+        let mut q = Pos::empty();
+        for s in 0..64u8 {
+            q.sq[r::sq(7 - r::file_of(s), r::rank_of(s)) as usize] = p.sq[s as usize];
+        }
+        q.white_to_move = p.white_to_move;
+        p = q;
+    }
+    if rng.chance(1, 2) {
+        p = workload::mirror(&p);
+    }
+    if rng.chance(1, 4) {
+        // the defender to move, one move after the attacker declined the mate
+        let ms: Vec<Mv> = p.legal_moves().into_iter().filter(|m| !p.apply(*m).is_terminal()).collect();
+        if !ms.is_empty() {
+            p = p.apply(*rng.pick(&ms));
+        }
+    }
+    p
+}
+
 /// small positions near mate: a strong side (queen/rooks/minor + pawns), kings biased to rims
 pub fn gen_mate_position(rng: &mut Rng) -> Pos {
     loop {
@@ -499,7 +534,11 @@ pub fn run_c11(seed: u64, runno: u64, solver_bound: u32) -> Acc {
     let mut acc = Acc::new();
     let z = ZobristHasher::create_zobrist_hasher();
     // sources: generated small positions, the endgame seeds and terminal-adjacent walks
-    let root = match rng.below(24) {
+    let root = match rng.below(27) {
+        24 | 25 | 26 => {
+            acc.count("c11_minimal_material_positions");
+            minimal_mate_root(&mut rng)
+        }
         23 => {
             // cross-check chains: a capture with check whose every reply gives check back and
             // is answered by mate is seen as "mate in 2" already in iteration 1 (check
